@@ -14,6 +14,7 @@
 #include <unordered_set>
 #include <vector>
 #include <fcntl.h>
+#include <fnmatch.h>
 #include <unistd.h>
 
 namespace pbt {
@@ -86,7 +87,7 @@ inline std::string jesc(const std::string &s) {
 }
 inline void init() {
   const char *k = getenv("PBT_KNOWN");
-  if (k) { std::istringstream in(k); std::string t; while (std::getline(in, t, ',')) if (!t.empty()) S().known.insert(t); }
+  if (k) { std::istringstream in(k); std::string t; while (std::getline(in, t, '\x1f')) if (!t.empty()) S().known.insert(t); }  // separated by 0x1f: tags may contain commas
   const char *r = getenv("PBT_RING");
   if (r) S().ringfd = open(r, O_WRONLY | O_CREAT | O_TRUNC, 0644);
 }
@@ -124,7 +125,7 @@ template <class Body> bool eval(const Case &c, Body body, std::string *why = nul
     }
     return true;
   }
-  if (s.known.count(o.tag)) { s.excluded_known++; s.known_hits[o.tag]++; return true; }
+  for (auto &k : s.known) if (k == o.tag || fnmatch(k.c_str(), o.tag.c_str(), 0) == 0) { s.excluded_known++; s.known_hits[k]++; return true; }
   s.last_fail_case = text; s.last_fail_tag = o.tag; s.last_fail_detail = o.detail;
   if (why) *why = o.tag + ": " + o.detail;
   return false;
